@@ -352,7 +352,7 @@ func itemsShape(name string, quick bool, f func(g *Gen) ap.ItemCollection) Shape
 
 // ItemsShapes are the shapes of an ItemCollection-typed property (lengths 1-3).
 func ItemsShapes() []Shape {
-	return []Shape{
+	return append([]Shape{
 		{Name: "[iri]", Class: "list1-iri", Quick: true, Build: func(g *Gen) reflect.Value { return val(ap.ItemCollection{g.IRI()}) }},
 		{Name: "[obj]", Class: "list1-obj", Quick: true, Build: func(g *Gen) reflect.Value { return val(ap.ItemCollection{obj("Object", g)}) }},
 		{Name: "[link]", Class: "list1-link", Quick: false, Build: func(g *Gen) reflect.Value { return val(ap.ItemCollection{obj("Link", g)}) }},
@@ -367,7 +367,41 @@ func ItemsShapes() []Shape {
 		itemsShape("[17]", false, func(g *Gen) ap.ItemCollection { return LongList(g, 17) }),
 		itemsShape("[33]", false, func(g *Gen) ap.ItemCollection { return LongList(g, 33) }),
 		itemsShape("[65]", false, func(g *Gen) ap.ItemCollection { return LongList(g, 65) }),
+	}, relatedMemberShapes()...)
+}
+
+// relatedMemberShapes: lists whose members have DIFFERENT ids but are related in another way - one member's href / url is the other
+// member's IRI, or the members are equal in everything but their id (for every struct type): members are told apart by their ids,
+// whatever a type's own notion of sameness or of "the link it stands for" says.
+func relatedMemberShapes() []Shape {
+	out := []Shape{
+		itemsShape("[iri,link-to-it]", false, func(g *Gen) ap.ItemCollection {
+			x := g.IRI()
+			return ap.ItemCollection{x, &ap.Link{ID: g.IRI(), Type: ap.MentionType, Href: x, Name: nlv("-", "@x")}}
+		}),
+		itemsShape("[link-to-it,iri]", false, func(g *Gen) ap.ItemCollection {
+			x := g.IRI()
+			return ap.ItemCollection{&ap.Link{ID: g.IRI(), Type: ap.LinkType, Href: x}, x}
+		}),
+		itemsShape("[iri,obj-with-that-url]", false, func(g *Gen) ap.ItemCollection {
+			x := g.IRI()
+			return ap.ItemCollection{x, &ap.Object{ID: g.IRI(), Type: ap.PageType, URL: x}}
+		}),
 	}
+	for i := range Structs {
+		st := &Structs[i]
+		out = append(out, itemsShape("[twins-but-id:"+st.Name+"]", false, func(g *Gen) ap.ItemCollection {
+			mk := func() ap.Item {
+				p := reflect.New(st.Type)
+				p.Elem().FieldByName("ID").Set(reflect.ValueOf(g.IRI()))
+				p.Elem().FieldByName("Type").Set(reflect.ValueOf(ap.ActivityVocabularyType(st.SpecificName())))
+				p.Elem().FieldByName("Name").Set(reflect.ValueOf(nlv("-", "the same name")))
+				return p.Interface().(ap.Item)
+			}
+			return ap.ItemCollection{mk(), mk()}
+		}))
+	}
+	return out
 }
 
 var (
@@ -509,6 +543,12 @@ func Shapes(k Kind) []Shape {
 				return e
 			}})
 		}
+		// endpoints that are embedded objects / collections with ids of their own (the only pointer-typed struct property of the
+		// vocabulary: what hangs off it is shared by every shallow copy of the actor)
+		out = append(out, Shape{Name: "ep-embedded", Class: "endpoints-embedded", Quick: true, Build: func(g *Gen) reflect.Value {
+			return val(&ap.Endpoints{SharedInbox: &ap.OrderedCollection{ID: g.IRI(), Type: ap.OrderedCollectionType}, UploadMedia: &ap.Object{ID: g.IRI(), Type: ap.NoteType},
+				OauthTokenEndpoint: g.IRI()})
+		}})
 		out = append(out, Shape{Name: "ep-all", Class: "endpoints", Quick: true, Build: func(g *Gen) reflect.Value {
 			e := reflect.New(et)
 			for i := 0; i < et.NumField(); i++ {
